@@ -58,3 +58,11 @@ Lemma F13_refuted : fst (legacy_get_pending any_cfg f13_world) = RErr EUnexpecte
 Proof. split; vm_compute; reflexivity. Qed.
 Lemma F13_now : fst (get_pending any_cfg f13_world) = RErr EUnexpectedPacket /\ w_cur (snd (get_pending any_cfg f13_world)) = None.
 Proof. split; vm_compute; reflexivity. Qed.
+
+(* ---------- F14 (C10): configuration values their field cannot carry made every call panic ---------- *)
+(* Fixed::<N>::serialize is `vec![0; N - len]`: with a password of seven digits the BCD payload has four bytes and 3 - 4 underflows *)
+Lemma F14_refuted : len_ser (LFixed 3) 4 = Panic /\ mk_cmd "zvt::packets::Registration" [VInt 1000000; VInt 222; VSome (VInt 978)] [] = [].
+Proof. split; vm_compute; reflexivity. Qed.
+Lemma F14_now : cfg_ok {| c_serial := []; c_terminal_id := []; c_currency := 978; c_amount := 1; c_read_card_timeout := 15; c_password := 1000000; c_max := 1 |} = false
+             /\ forall ops scripts, feig_history {| c_serial := []; c_terminal_id := []; c_currency := 978; c_amount := 1; c_read_card_timeout := 15; c_password := 1000000; c_max := 1 |} ops scripts = None.
+Proof. split; [reflexivity|intros; reflexivity]. Qed.
